@@ -62,6 +62,9 @@ class World:
         comms.max_retries_per_message = MAX_RETRIES
         executor_mod.get_context = lambda kind: types.SimpleNamespace(Process=InertProc)
         executor_mod.atexit = types.SimpleNamespace(register=lambda f: None)
+        # the executor publishes its shm port through the environment: inert here (and independent of what another
+        # harness in the same process may have installed)
+        executor_mod.shm_api.publish_client_port = lambda port: None
         self.allow_timeout = False
         self.net.block = self._block
         self.faults_left = faults
